@@ -40,7 +40,10 @@ fn gen_priority() -> Priority {
     }
     RNG.with(|cell| {
         let mut rng = cell.get();
-        let priority = rng.next_raw() as Priority;
+        // the high half of the LCG state: the low bits of an LCG are its weakest (sub-sampled at
+        // stride 2^k the low k+2 bits barely move; with the low half as priority, 2^15 treaps
+        // filled in lock-step each degenerated into a near chain)
+        let priority = (rng.next_raw() >> 32) as Priority;
         cell.set(rng);
         priority
     })
